@@ -65,8 +65,9 @@ def _inline(wtree, kname, ktree, kparams):
     return out
 
 
-def modinfo_f(units):
+def modinfo_f(units, frozen=None):
     """reference side: argument positions a unit may write (assigned, or passed on at a written position)"""
+    frozen = frozen or {}
     mod = {n: set() for n in units}
     changed = True
     while changed:
@@ -107,7 +108,7 @@ def modinfo_f(units):
                                             (x[1] not in mod or i in mod[x[1]]):
                                         w.add(params.index(a[1]))
                 return w
-            w = scan(u.body)
+            w = scan(u.body) if n not in frozen else set(frozen[n])
             if not w <= mod[n]:
                 mod[n] |= w
                 changed = True
@@ -140,7 +141,7 @@ def modinfo_c(prog):
 
 def install_modinfo(units, prog):
     tv.MODINFO['f'] = dict(tv.EXTERNAL_MOD)
-    tv.MODINFO['f'].update(modinfo_f(units))
+    tv.MODINFO['f'].update(modinfo_f(units, {'fermi': set()}))
     # the reference's `fermi` clamps its by-reference energy argument up to 50 eV; the port takes it by value.
     # Treated as by-value on both sides (DESIGN.md: accepted by-reference artefact).
     tv.MODINFO['f']['fermi'] = set()
@@ -206,9 +207,10 @@ def compare_unit(u, fn, sigs=None, kernel=None, opts=None):
     r = Result()
     for hook in ADMISSIBLE_HOOKS.get(u.name, ()):
         gf, gc = hook(gf, gc, sf, sc, r.admissible)
-    extra = ADMISSIBLE_OUTPUTS.get(u.name, set())
-    fout |= extra
-    cout |= extra
+    if u.name in ADMISSIBLE_OUTPUTS:
+        tv.MODINFO['f']['$newrec'] = tv.MODINFO['c']['$commit'] = set()
+        fout |= ADMISSIBLE_OUTPUTS[u.name]
+        cout |= ADMISSIBLE_OUTPUTS[u.name]
     # names of external procedures passed as arguments are not variables
     ext = {e.lower() for e in u.externals}
     finputs = fall | ext | set(fparams)
@@ -229,6 +231,7 @@ def compare_unit(u, fn, sigs=None, kernel=None, opts=None):
     # a C++ local zero-initialised at its declaration where the reference reads the variable unassigned
     # (static storage: zero): admissible, recorded per use
     b.admissible_zero_init = {(sc.var(n)[1], l) for n, l in decl_zero}
+    b.fout, b.cout = fout, cout
     b.run()
     r.nodes = b.nodes_compared
     r.admissible += b.admissible_used
@@ -303,7 +306,7 @@ def _adm_particle(gf, gc, sf, sc, rec):
         if x.kind == 'assign':
             l, r = x.stmt[1], x.stmt[2]
             if l == ('var', 'npfull'):
-                x.kind = 'nop'
+                x.kind, x.stmt = 'call', ('call', '$newrec', (), x.stmt[3])
             elif l[0] == 'idx' and l[1] == 'npgeant':
                 x.stmt = ('assign', ('var', '$new.code'), r, x.stmt[3])
             elif l[0] == 'idx' and l[1] == 'ptime':
@@ -333,7 +336,7 @@ def _adm_particle(gf, gc, sf, sc, rec):
                 n2.succ = [n3.id]
                 x.succ = [n2.id]
             elif name == 'event::add_particle':
-                x.kind = 'nop'
+                x.stmt = ('call', '$commit', (), x.stmt[3])
         if x.kind == 'assign':
             x.stmt = ('assign', x.stmt[1], ir.map_expr(
                 lambda e: ('call', 'mass') + e[2:] if e[0] == 'call' and e[1] == 'particle_mass_mev' else e,
@@ -361,5 +364,6 @@ def _adm_fermi(gf, gc, sf, sc, rec):
 
 
 ADMISSIBLE_HOOKS = {'pair': [_adm_pair_swap], 'y90': [_adm_y90_region], 'particle': [_adm_particle],
-                    'fermi': [_adm_fermi]}
-ADMISSIBLE_OUTPUTS = {'particle': {'$new.code', '$new.time', '$new.p1', '$new.p2', '$new.p3'}}
+                    'fermi': [_adm_fermi], 'bb': [_adm_particle]}
+_NEW = {'$new.code', '$new.time', '$new.p1', '$new.p2', '$new.p3'}
+ADMISSIBLE_OUTPUTS = {'particle': _NEW, 'bb': _NEW}
